@@ -524,6 +524,9 @@ fn bespoke_spellings(ctx: &Ctx, runs: &AtomicU64) {
         vec!["set -C x y", "set -C -- x y", "set -o noclobber x y", "set --noclobber x y", "set --noclob x y", "set -C - x y"],
         vec!["set -e; set +e", "set -e; set +o errexit", "set -e; set ++errexit"],
         vec!["set -- -e", "set - -e"],
+        // only alphanumeric characters matter in long option names, case-insensitively
+        vec!["set -e", "set -o errexit", "set -o ErrExit", "set -o err-exit", "set -o err_exit", "set --err-exit", "set -o ERREXIT", "set -o 'err exit'"],
+        vec!["set -e; set +o Err-Exit", "set -e; set ++ERREXIT", "set -e; set +e"],
         vec!["set -a -f", "set -af", "set -o allexport -o noglob", "set --allexport --noglob"],
         vec!["trap '' TERM; kill -s TERM $$", "trap '' TERM; kill -sTERM $$", "trap '' TERM; kill -TERM $$", "trap '' TERM; kill -n 15 $$", "trap '' TERM; kill -15 $$",
              "trap '' TERM; kill -s term $$", "trap '' TERM; kill -s SIGTERM $$", "trap '' TERM; kill $$", "trap '' TERM; kill -s TERM -- $$"],
@@ -549,7 +552,12 @@ fn bespoke_spellings(ctx: &Ctx, runs: &AtomicU64) {
             }
         }
     }
-    for bad in ["set -Z", "set -o nosuchoption", "set --nosuch", "set -o", "kill -s NOSUCHSIG $$", "kill -s", "kill", "set --no"] {
+    for bad in [
+        "set -Z", "set -o nosuchoption", "set --nosuch", "set -o", "kill -s NOSUCHSIG $$", "kill -s", "kill", "set --no",
+        // letters and digits outside ASCII are alphanumeric too: these are not spellings of errexit / xtrace
+        "set -o errexité", "set -o Errexité", "set -o err-exité", "set --Err-Exité", "set -o 'X-trace٣'", "set -o éerrexit", "set -o ERRｅXIT", "set +o Errexité",
+        "kill -s TERMé $$", "kill -sSIGTERMé $$",
+    ] {
         let (same, o) = unchanged(&u, bad);
         runs.fetch_add(1, Relaxed);
         let rejected = o.status != "st:0" && !o.stderr_empty;
